@@ -5,6 +5,7 @@ from mirq.origin import Origins, show, walk, decisions, lit_truth, enum_paths, p
 from mirq.pat import match, find, strip_refs
 from rules.c14 import field_index, MONOFONT
 from rules.c10 import fold
+from mirq.paths import Paths, Unsupported, show_eff
 
 TEXT = "embedded_graphics::text::text::Text"
 STYLE = "embedded_graphics::mono_font::mono_text_style::MonoTextStyle"
@@ -37,61 +38,59 @@ def check_lines(prog, rep):
     rep.check(ok, "R15.4", "split", "lines() must split self.text on '\\n'; found %s" % show(ro, maxd=6), at=lines.span, fn=lines.path)
 
     al = variants(prog, "embedded_graphics::text::Alignment")
-    cfg = CFG(c.body)
-    paths = enum_paths(cfg, 0, None, 256)
-    POS = None
+    try:
+        summs = Paths(prog).of(c)
+    except Unsupported as e:
+        rep.fail("R15.1", "lines:shape", "cannot summarise the closure of lines(): %s" % e, status="undecided", at=c.span, fn=c.path)
+        return
     seen_al = {}
     n_meas = 0
-    for path in paths:
-        po = Origins(c, path=path)
-        lits = path_conditions(c, path, po)
-        ret = strip_refs(po.return_origin())
-        m = match(ret, ("agg", "tuple", ("?text", "?p")))
+    is_pos = lambda t: t[0] == "upvar" and t[2] == "position"
+    one = ("call", "*Point::new", "_", (("const", 1), ("const", 0)))
+    advance_bad = []
+    for sm in summs:
+        m = match(sm.ret, ("agg", "tuple", ("?text", "?p")))
         if m is None:
-            rep.fail("R15.1", "lines:shape", "closure must yield (text, position); yields %s" % show(ret, maxd=4), status="undecided", at=c.span, fn=c.path)
+            rep.fail("R15.1", "lines:shape", "closure must yield (text, position); yields %s" % show(sm.ret, maxd=4), status="undecided", at=c.span, fn=c.path)
             return
         align = None
-        for d, lit in lits:
-            d = strip_refs(d)
-            if d[0] == "discr" and len(lit) == 1 and isinstance(lit[0], int) and "self" in show(d):
-                align = al.get(lit[0])
-        # measure_string call on this path
-        meas = None
-        for k, b in enumerate(path):
-            t = c.body["blocks"][b]["t"]
-            if t and t["k"] == "call" and t["f"].get("name") == "measure_string":
-                meas = [strip_refs(a) for a in po.term_args(k)]
-        text_out = m["?text"]
-        if meas is not None:
+        for fct in sm.facts:
+            if fct[0] == "variant" and set(fct[2]) <= set(al.values()) and len(fct[2]) == 1 and "self" in show(fct[1]):
+                align = fct[2][0]
+        text_out, p = m["?text"], m["?p"]
+        meas = [n for n in walk(p) if n[0] == "call" and n[1].endswith("measure_string")]
+        meas = list(dict.fromkeys(meas))
+        if meas:
             n_meas += 1
-            same = meas[1] == text_out
+            same = len(meas) == 1 and meas[0][3][1] == text_out
             rep.check(same, "R15.1", "measured-is-drawn:%s" % align,
                       "the line is measured for alignment as %s but yielded (drawn and boxed) as %s: with a trailing '\\r' the two differ, so \"\\r\\n\" is laid out differently from \"\\n\""
-                      % (show(meas[1], maxd=5), show(text_out, maxd=5)), at=c.span, fn=c.path)
-            # measured at Point::zero() with the style's baseline
-            z_ok = match(meas[2], ("call", "*Point::zero", "_", ())) is not None
+                      % (show(meas[0][3][1], maxd=5), show(text_out, maxd=5)), at=c.span, fn=c.path)
+            z_ok = match(meas[0][3][2], ("call", "*Point::zero", "_", ())) is not None
             rep.check(z_ok, "R15.4", "measure-at-zero:%s" % align, "alignment must measure the line at Point::zero()", at=c.span, fn=c.path, nontrivial=False)
-        # alignment form
-        p = m["?p"]
-        upv_pos = [n for n in walk(p) if n[0] == "upvar" and n[2] == "position"]
         nextp = None
         form = None
-        if p[0] == "upvar" and p[2] == "position":
+        if is_pos(p):
             form = "Left"
         else:
-            mr = match(p, ("call", "*Sub>::sub", "_", (("upvar", "_", "position"), ("call", "*Sub>::sub", "_", ("?next", ("call", "*Point::new", "_", (("const", 1), ("const", 0))))))))
-            mc = match(p, ("call", "*Sub>::sub", "_", (("upvar", "_", "position"), ("call", "*Div<i32>>::div", "_", (("call", "*Sub>::sub", "_", ("?next", ("call", "*Point::new", "_", (("const", 1), ("const", 0))))), ("const", 2))))))
-            if mr is not None:
+            mr = match(p, ("call", "*Sub>::sub", "_", ("?pos", ("call", "*Sub>::sub", "_", ("?next", one)))))
+            mc = match(p, ("call", "*Sub>::sub", "_", ("?pos", ("call", "*Div<i32>>::div", "_", (("call", "*Sub>::sub", "_", ("?next", one)), ("const", 2))))))
+            if mr is not None and is_pos(mr["?pos"]):
                 form, nextp = "Right", mr["?next"]
-            elif mc is not None:
+            elif mc is not None and is_pos(mc["?pos"]):
                 form, nextp = "Center", mc["?next"]
         if nextp is not None:
-            # next = measure_string(..).next_position
             good = nextp[0] == "field" and nextp[1][0] == "call" and nextp[1][1].endswith("measure_string") and nextp[2] == field_index(prog, "embedded_graphics::text::renderer::TextMetrics", "next_position")
             if not good:
                 form = None
         if align is not None:
             seen_al.setdefault(align, set()).add(form)
+        # y advances by line_height() exactly once on every path
+        ws = sm.writes()
+        okw = len(sm.effects) == 1 and len(ws) == 1 and match(ws[0][1], ("field", ("upvar", "_", "position"), 1)) is not None and \
+            match(fold(ws[0][2]), ("bin", "Add", ("field", ("upvar", "_", "position"), 1), ("call", "*::line_height", "_", ("?s",)))) is not None
+        if not okw:
+            advance_bad.append("; ".join(show_eff(e) for e in sm.effects) or "no effect")
     for a in sorted(set(al.values())):
         forms = seen_al.get(a, set())
         rep.check(forms == {a}, "R15.4", "alignment:" + a,
@@ -99,21 +98,7 @@ def check_lines(prog, rep):
                   at=c.span, fn=c.path, status="undecided" if None in forms else "refuted")
     rep.floor("R15.1", "paths with measurement", n_meas, 2)
     rep.sample({"rule": "R15.4", "alignment_forms": {k: sorted(str(x) for x in v) for k, v in seen_al.items()}})
-
-    # y advances by line_height() exactly once on every path
-    org = Origins(c)
-    writes = []
-    for bi in sorted(org.cfg.live_blocks()):
-        for si, s in enumerate(c.body["blocks"][bi]["s"]):
-            if s["k"] == "assign" and s["place"]["l"] == 1 and s["place"]["p"]:
-                fs = [e["f"] for e in s["place"]["p"] if isinstance(e, dict) and "f" in e]
-                writes.append((bi, fs, strip_refs(org._rvalue(s["rv"], bi, si))))
-    ok = len(writes) == 1
-    if ok:
-        bi, fs, val = writes[0]
-        m = match(fold(val), ("bin", "Add", ("field", ("upvar", "_", "position"), 1), ("call", "*::line_height", "_", ("?s",))))
-        ok = m is not None and fs[-1] == 1 and all(org.cfg.dominates(bi, e) for e in org.cfg.exits())
-    rep.check(ok, "R15.4", "line-advance", "each split item must advance position.y by self.line_height() exactly once on every path; found writes %s" % [(w[1], show(w[2], maxd=5)) for w in writes],
+    rep.check(not advance_bad, "R15.4", "line-advance", "each split item must advance position.y by self.line_height() exactly once on every path; found %s" % sorted(set(advance_bad))[:3],
               at=c.span, fn=c.path)
 
 
